@@ -145,6 +145,7 @@ class BackwardRun:
             reps = 2 if (aggregator is None and rng.random() < 0.3) else 1
         self.reps = reps
         self.positional = rng.random() < 0.25
+        self.rely_on_defaults = rng.random() < 0.5
         self.exc = None
         try:
             for r in range(reps):
@@ -152,8 +153,11 @@ class BackwardRun:
                 rt = True if r < reps - 1 else self.retain
                 if self.positional:      # the documented order: backward(tensors, aggregator, inputs, retain_graph, parallel_chunk_size)
                     backward(tens_arg, self.agg, ins, rt, None if k == 0 else k)
-                else:
-                    backward(tens_arg, self.agg, inputs=ins, retain_graph=rt, parallel_chunk_size=None if k == 0 else k)
+                else:       # documented defaults (retain_graph=False, parallel_chunk_size=None) are relied upon half of the time
+                    opt = {} if (self.rely_on_defaults and not rt) else {"retain_graph": rt}
+                    if not (self.rely_on_defaults and k == 0):
+                        opt["parallel_chunk_size"] = None if k == 0 else k
+                    backward(tens_arg, self.agg, inputs=ins, **opt)
         except Exception as e:                          # noqa: BLE001
             self.exc = e
         self.after_vals = B.flat_vals()
